@@ -109,6 +109,21 @@ func (vc *VC) execInstr(ins ssa.Instruction) {
 		vc.retBlks = append(vc.retBlks, vc.cur)
 	case *ssa.If, *ssa.Jump:
 		// handled by edge conditions
+	case *ssa.Select:
+		// a nondeterministic choice among the ready cases; received values are arbitrary
+		vc.assertsAtSelect(x)
+		vc.note("select: modelled as a nondeterministic choice with arbitrary received values (no channel semantics)")
+		r := vc.fresh(x.Type(), "sel")
+		lo := "0"
+		if !x.Blocking {
+			lo = "(- 1)"
+		}
+		vc.fact("true", and(le(lo, r.F[0].S), lt(r.F[0].S, litI(int64(len(x.States))))))
+		vc.vals[x] = r
+	case *ssa.Send:
+		vc.note("channel send: no effect modelled")
+	case *ssa.Go:
+		vc.note("go statement: the new goroutine is not modelled (every obligation is about one call executing alone)")
 	case *ssa.Panic:
 		vc.oblige("panic", R, "false", x.Pos(), "explicit panic reachable")
 	case *ssa.Phi:
@@ -251,7 +266,8 @@ func (vc *VC) unop(x *ssa.UnOp) SVal {
 		}
 		return intV(sub(sub("0", v.S), "1"), x.Type())
 	case token.ARROW:
-		unsup("channel receive")
+		vc.note("channel receive: the received value is arbitrary (no channel semantics)")
+		return vc.fresh(x.Type(), "recv")
 	}
 	unsup("unary op %v", x.Op)
 	return SVal{}
@@ -540,13 +556,33 @@ func (vc *VC) equal(a, b SVal, T types.Type) string {
 
 // stringEq: content equality, axiomatised through an uninterpreted content id.
 func (vc *VC) stringEq(a, b SVal) string {
-	if !vc.declared["streq"] {
-		vc.declared["streq"] = true
-		vc.emit("(declare-fun streq (Int Int Int Int Int Int) Bool)")
-		vc.emit("(assert (forall ((o Int) (f Int) (l Int)) (! (streq o f l o f l) :pattern ((streq o f l o f l)))))")
+	// strid(o, f, l): an abstract identifier of the CONTENT of the string view (o, f, l): two strings
+	// are equal iff they have the same length and, when non-empty, the same content id. Literal
+	// constants get pairwise distinct ids (constStr), a dynamic string may equal any of them.
+	vc.stridDecl()
+	return and(eq(a.ln(), b.ln()), or(eq(a.ln(), "0"), eq(sx("strid", a.obj(), a.off(), a.ln()), sx("strid", b.obj(), b.off(), b.ln()))))
+}
+
+func (vc *VC) stridDecl() {
+	if !vc.declared["strid"] {
+		vc.declared["strid"] = true
+		vc.emit("(declare-fun strid (Int Int Int) Int)")
 	}
-	// distinct constant strings are unequal, identical ones equal
-	return sx("streq", a.obj(), a.off(), a.ln(), b.obj(), b.off(), b.ln())
+}
+
+// constStr returns the value of a string literal: its own constant object and content id.
+func (vc *VC) constStr(T types.Type, s string) SVal {
+	id := vc.eng.stringID(s)
+	name := fmt.Sprintf("$S%d", id)
+	if !vc.declared[name] {
+		vc.declare(name, SInt)
+		vc.fact("true", and(lt("0", name), lt(name, "$A0")))
+		if len(s) > 0 {
+			vc.stridDecl()
+			vc.fact("true", eq(sx("strid", name, "0", litI(int64(len(s)))), litI(int64(id))))
+		}
+	}
+	return stringV(T, name, "0", litI(int64(len(s))))
 }
 
 // indexing -----------------------------------------------------------------
